@@ -53,6 +53,22 @@ class Agg:
         self.extra = Counter()
 
     def add(self, prop, i, res, keep_digests=False):
+        if 'native_crash' in res:
+            # the system under test killed the process inside an operation: a violation
+            # candidate whose history is the journal written before each operation
+            ops = res.get('journal') or []
+            self.evaluations += 1
+            if len(self.violations) < 40:
+                self.violations.append({
+                    'run': i, 'ops': ops[:-1], 'failing_op': ops[-1] if ops else None,
+                    'hashseed': hashseed(), 'seed': None, 'config': None,
+                    'violation': {'code': 'native.crash', 'props': [prop],
+                                  'features': {'signal': res['native_crash'],
+                                               'op': (ops[-1].get('op') if ops else None)},
+                                  'detail': f'process died with signal {res["native_crash"]} inside operation '
+                                            f'{ops[-1] if ops else "?"}', 'op_index': len(ops) - 1},
+                })
+            return
         if 'harness_error' in res:
             self.harness.append({'run': i, 'error': res['harness_error'][-1500:]})
             return
@@ -173,6 +189,10 @@ def cmd_replay(args):
         env.pop('VERIF_REEXEC', None)
         return subprocess.call([VCHECK] + sys.argv[1:], env=env)
     res = replay_record(args.prop, rec)
+    if 'native_crash' in res:
+        res = {'digest': 'native-crash', 'violation': {
+            'code': 'native.crash', 'props': [args.prop], 'op_index': len(res.get('journal') or []) - 1,
+            'detail': f'process died with signal {res["native_crash"]}'}}
     if 'harness_error' in res:
         print('HARNESS-ERROR during replay:\n' + res['harness_error'])
         return 2
@@ -206,6 +226,8 @@ def cmd_shrink(args):
 
     def test(ops):
         r = runner.run_child(lambda: eng.replay(prop, ops, hs, tag='sh'))
+        if 'native_crash' in r:
+            return 'native.crash'
         v = r.get('violation')
         return v['code'] if v else None
 
@@ -225,6 +247,8 @@ def cmd_shrink(args):
                                         budget_s=args.shrink_budget / 2)
         tests = t1 + t2 + 1
     res = runner.run_child(lambda: eng.replay(prop, final, hs, tag='fin'))
+    if 'native_crash' in res:
+        res = {'violation': raw['violation'], 'digest': 'native-crash'}
     v = res.get('violation') or raw['violation']
     rec = {
         'property': prop, 'engine': eng.NAME, 'verif_seed': raw.get('base_seed'), 'run': raw.get('run'),
